@@ -22,21 +22,19 @@ Section LoopR.
   Definition mur' (c : cursor) : nat := if eof c then 0%nat else S (mur P U c).
 
   Lemma rev_loop : forall fuel i c,
-    reverse c = true -> (eof c = false -> next_end c <> [] \/ fst (env i) = []) -> (mur' c < fuel)%nat ->
+    reverse c = true -> (mur' c < fuel)%nat ->
     exists out, scan_loop fuel B ko env i c = Done out /\
                 map (canon ko) out = if eof c then [] else rev (E (next_start c) (next_end c)).
   Proof.
-    induction fuel as [|f IH]; intros i c Hrev Hguard Hmu; [lia|].
+    induction fuel as [|f IH]; intros i c Hrev Hmu; [lia|].
     cbn [scan_loop]. unfold mur' in Hmu. destruct (eof c) eqn:Heof.
     - exists []. split; reflexivity.
-    - destruct (rev_step ko B P U HB (fst (env i)) (snd (env i)) c (Hsorted i) (Hnonempty i) Hrev Heof (Hlay i) (Hkeys i) (Hguard eq_refl))
+    - destruct (rev_step ko B P U HB (fst (env i)) (snd (env i)) c (Hsorted i) (Hnonempty i) Hrev Heof (Hlay i) (Hkeys i))
         as (ps & c' & Hgd & Hrev' & Hlo' & Hcons & Hsplit & Hdec).
       rewrite Hgd, Hcons.
       assert (Hmu' : (mur' c' < f)%nat).
       { unfold mur'. destruct (eof c') eqn:E'; [lia|]. destruct (Hdec eq_refl). lia. }
-      assert (Hguard' : eof c' = false -> next_end c' <> [] \/ fst (env (S i)) = []).
-      { intros He. left. apply (Hdec He). }
-      destruct (IH (S i) c' Hrev' Hguard' Hmu') as (out' & Hloop & Hout).
+      destruct (IH (S i) c' Hrev' Hmu') as (out' & Hloop & Hout).
       exists (emit ko ps ++ out'). split; [apply prepend_done; exact Hloop|].
       assert (Hrevspec : forall a b, rev (E a b) = map (canon ko) (filter_map (emit_row ko) (rev (filter (key_in a b) (snd (env i)))))).
       { intros a b. rewrite <- (Hind i a b). unfold emit. rewrite filter_map_rev, map_rev. reflexivity. }
@@ -58,12 +56,11 @@ Theorem scan_reverse_complete :
   forall (T : truth) (ts : N) (lo hi : key) (B : nat) (ko : bool)
          (lay : nat -> layout) (lk : nat -> list key) (P : list key),
     tsorted T -> (forall e, In e T -> fst e <> []) -> (forall i, incl (lay i) P) ->
-    (hi <> [] \/ lay 0%nat = []) ->
     exists out,
       scan (length P + length T + 2) B ko ts T lay lk lo hi true = Done out /\
       map (canon ko) out = map (canon ko) (rev (expected ts lo hi T)).
 Proof.
-  intros T ts lo hi B ko lay lk P HT Hnn Hlay Hhi. unfold scan.
+  intros T ts lo hi B ko lay lk P HT Hnn Hlay. unfold scan.
   destruct (rev_loop ko (norm_batch B) P (map fst T) (scan_env ts T lay lk)
               (fun a b => map (canon ko) (expected ts a b T)) (norm_batch_pos B))
     with (fuel := (length P + length T + 2)%nat) (i := 0%nat) (c := init_cursor lo hi true) as (out & H1 & H2).
@@ -74,27 +71,20 @@ Proof.
   - intros i e. cbn. apply rows_of_keys.
   - intros i a b. cbn [scan_env snd]. unfold expected, key_in. apply (emit_rows_of ko ts T (lk i) (in_range a b)).
   - reflexivity.
-  - intros _. cbn [init_cursor next_end scan_env fst]. exact Hhi.
   - unfold mur'. cbn [init_cursor eof]. pose proof (mur_bound P (map fst T) (init_cursor lo hi true)).
     rewrite map_length in H. lia.
   - exists out. split; [exact H1|]. cbn [init_cursor eof next_start next_end] in H2. rewrite H2. rewrite map_rev. reflexivity.
 Qed.
 
-(* ---------------------------------------------------------------- F08b: reverse from the end of the key space *)
+(* ---------------------------------------------------------------- regression: the former F08b witness *)
 (* keys a..h (one committed Put each), regions split at "c" and "f", IterReverse(nil, nil), batch 256:
-   only b, a come back. *)
+   all eight keys come back (before 0dbaf7e LocateEndKey("") returned the first region: only b, a). *)
 Definition w_keys8 : list key := [[97]; [98]; [99]; [100]; [101]; [102]; [103]; [104]].
 Definition w_truth : truth := map (fun k => (k, [(5, Put [118])])) w_keys8.
 Definition w_layout : layout := [[99]; [102]].
 
-Lemma reverse_unbounded_witness :
+Lemma reverse_unbounded_regression :
   scan (length w_layout + length w_truth + 2) 256 false 10 w_truth (fun _ => w_layout) (fun _ => []) [] [] true
-    = Done [([98], [118]); ([97], [118])]
-  /\ map (canon false) (rev (expected 10 [] [] w_truth)) <> [([98], [118]); ([97], [118])].
-Proof. split; [vm_compute; reflexivity|vm_compute; discriminate]. Qed.
-
-Lemma w_truth_sorted : tsorted w_truth.
-Proof.
-  unfold tsorted, ksorted, w_truth, w_keys8. cbn [map].
-  repeat (constructor; [|repeat (constructor; try (unfold kfst_lt, klt; vm_compute; exact I))]). constructor.
-Qed.
+    = Done (rev (expected 10 [] [] w_truth))
+  /\ length (expected 10 [] [] w_truth) = 8%nat.
+Proof. split; vm_compute; reflexivity. Qed.
